@@ -92,7 +92,54 @@ func VerifReq_Lifecycle() {
 		e.DelayRelease = verifrt.Choose("executor-slow-to-release-task", 2) == 1
 	}
 	pA := peer.ID("peerA")
-	rq := e.Start(pA, 0)
+	var failure graphsync.ResponseStatusCode
+	terminalSent, ctxCancelled, apiCancelled, hookErr := false, false, false, false
+	inProgressAtCancel, inProgressAtFailure := false, false
+	var rq *Req
+	listed := func() bool {
+		_, ok := e.RM.PeerState(pA).RequestStates[rq.ID]
+		return ok
+	}
+	// HOOKRACE: the caller's incoming-block hook is slow at block j; while it
+	// runs (the request's task is running) the caller cancels, through its
+	// context or through the API, and the manager handles that; the hook then
+	// optionally pauses the request
+	if verifrt.Param("HOOKRACE", 0) == 1 {
+		if race := verifrt.Choose("block-hook-race", 5); race != 0 {
+			at := 1 + verifrt.Choose("block-hook-race-at", 2)
+			e.BlockHookDo = func(index int) {
+				if index != at {
+					return
+				}
+				verifrt.Cover("hook-race")
+				switch race {
+				case 1, 2:
+					if !ctxCancelled {
+						inProgressAtCancel = inProgressAtCancel || (failure == 0 && !hookErr)
+						rq.Cancel()
+						ctxCancelled = true
+					}
+				case 3, 4:
+					// CancelRequest waits for the request to end: issue it from a
+					// goroutine of its own (which may get to run only after later
+					// events of the main sequence; the bookkeeping is done when it does)
+					go func() {
+						if !apiCancelled {
+							inProgressAtCancel = inProgressAtCancel || (listed() && failure == 0 && !hookErr)
+							apiCancelled = true
+							_ = e.RM.CancelRequest(e.Ctx, rq.ID)
+						}
+					}()
+				}
+				verifrt.Quiesce()
+				verifrt.Eventf("hook race %d at block %d: after the slow step listed=%v", race, index, len(e.RM.PeerState(pA).RequestStates) != 0)
+				if race == 2 || race == 4 {
+					e.BlockHookPause = at
+				}
+			}
+		}
+	}
+	rq = e.Start(pA, 0)
 	kit.Drain() // the executor runs until its first local miss and sends the request
 	// the responder answers the most recent new request it received: a fresh
 	// re-request (after a resume) restarts its response with the skip count
@@ -112,13 +159,6 @@ func VerifReq_Lifecycle() {
 			sentItems = 0
 		}
 		return true
-	}
-	var failure graphsync.ResponseStatusCode
-	terminalSent, ctxCancelled, apiCancelled, hookErr := false, false, false, false
-	inProgressAtCancel, inProgressAtFailure := false, false
-	listed := func() bool {
-		_, ok := e.RM.PeerState(pA).RequestStates[rq.ID]
-		return ok
 	}
 	desc := ""
 	for i := 0; i < nev; i++ {
@@ -195,7 +235,9 @@ func VerifReq_Lifecycle() {
 		kit.Drain()
 		st, ok := e.RM.PeerState(pA).RequestStates[rq.ID]
 		verifrt.Eventf("closing round %d: listed=%v state=%v epoch=%d", round, ok, st, epoch)
-		if ok && st == graphsync.Paused {
+		// (a caller that cancelled the request does not resume it: the
+		// cancellation alone must end it)
+		if ok && st == graphsync.Paused && !ctxCancelled && !apiCancelled {
 			_ = e.RM.UnpauseRequest(e.Ctx, rq.ID)
 			verifrt.Cover("closing-unpause")
 			continue
